@@ -10,6 +10,8 @@ from framework.registry import target, job, PROPS, COMMON_ASSUME
 #   c14_eq_block.cpp          block-valued backend (static_matrix<2,2>): 4 cells, the as_scalar dispatch, unsupported ruge_stuben
 #   c14_tables.cpp            parameter table over every serial params struct
 #   c14_rt_misc.cpp           enumeration strings, unknown keys through the run-time classes
+# Binary 'c14_mpi_eq' (mpirun, 2-3 ranks quick / 1-5 thorough): every mpi relaxation, 4 mpi::amg cells and the 9 mpi solvers through the run-time
+# wrappers against the compile-time classes, bitwise on every rank's rows, on non-uniformly scaled variable-coefficient matrices.
 # Binary 'c14_mpi': parameter table + enumerations of the MPI structs (mpicxx; only params objects are
 # constructed, so it runs as a singleton without mpirun).
 # One tiny target per compile probe (item 4): 'c14_probe_<component>', job with compile_probe set.
@@ -28,6 +30,7 @@ C14_SRC = ['harness/c14_config.cpp', 'harness/c14_eq_aggregation.cpp', 'harness/
            'harness/c14_eq_block.cpp', 'harness/c14_tables.cpp', 'harness/c14_rt_misc.cpp']
 target('c14', C14_SRC)
 target('c14_mpi', ['harness/c14_mpi.cpp'])
+target('c14_mpi_eq', ['harness/c14_mpi_equiv.cpp'])   # run-time vs compile-time MPI classes, run under mpirun
 
 # component -> (header, params type[, mpi])
 _S = 'amgcl/solver/'; _R = 'amgcl/relaxation/'; _C = 'amgcl/coarsening/'
@@ -87,6 +90,11 @@ def c14_jobs(tier):
     js = [job('config-plain', 'c14', 'plain', threads=1, shards=8, timeout=3600),
           job('config-asan', 'c14', 'asan', threads=1, shards=8, timeout=7200),
           job('mpi-params-plain', 'c14_mpi', 'mpi-plain', threads=1, timeout=1800)]
+    # distributed run-time wrappers vs compile-time classes, bitwise per rank; own Open MPI session directory per mpirun (concurrent mpiruns race in mkdir of the shared one)
+    for r in ((2, 3) if q else (1, 2, 3, 4, 5)):
+        js.append(job('mpi-equiv-r%d' % r, 'c14_mpi_eq', 'mpi-plain', mpi=r, threads=1, timeout=2400, env={'OMPI_MCA_orte_tmpdir_base': '/tmp/vf-ompi/C14-equiv-r%d' % r}))
+    if not q:
+        js.append(job('mpi-equiv-asan-r2', 'c14_mpi_eq', 'mpi-asan', mpi=2, threads=1, timeout=3600, env={'OMPI_MCA_orte_tmpdir_base': '/tmp/vf-ompi/C14-equiv-asan'}))
     if not q:
         js.append(job('mpi-params-asan', 'c14_mpi', 'mpi-asan', threads=1, timeout=3600, noleak=True))
     for p in C14_PROBES:
@@ -109,8 +117,8 @@ PROPS['C14'] = dict(
                      '(45 serial + 11 MPI structs); every documented enumeration name of the 8 enumeration types; every nesting level for unknown keys; '
                      '44 compile probes'),
     min_nontrivial=dict(quick=800, thorough=3000),
-    require_obs=dict(quick=['table_struct_cases', 'invalid_enum_strings_tried', 'unknown_runtime_levels', 'documented_members'],
-                     thorough=['table_struct_cases', 'invalid_enum_strings_tried', 'unknown_runtime_levels', 'documented_members']),
+    require_obs=dict(quick=['table_struct_cases', 'invalid_enum_strings_tried', 'unknown_runtime_levels', 'documented_members', 'foreign_keys_injected', 'equiv_mpi_relaxations'],
+                     thorough=['table_struct_cases', 'invalid_enum_strings_tried', 'unknown_runtime_levels', 'documented_members', 'foreign_keys_injected', 'equiv_mpi_relaxations']),
     assumptions=COMMON_ASSUME + ['Boost.PropertyTree text round trip of arithmetic values (max_digits10) is trusted',
                                  'pointer-valued parameters are checked for import only (the library copies the pointee)'],
     technique=('differential oracle: compile-time composed classes with field-by-field filled params vs run-time wrappers fed the same values through a property tree, '
@@ -119,5 +127,5 @@ PROPS['C14'] = dict(
     level_text=('Every cell of the run-time dispatch tables is executed against its compile-time twin on seeded systems with random non-default parameters and must agree bitwise; '
                 'every member of every params struct is set through a tree, read back, exported, re-imported and isolated; unknown keys are injected at every nesting level; '
                 'invalid enumeration strings must throw. Held means no observed execution deviated; it is not a proof for unobserved parameter values.'),
-    level_note=('back ends other than builtin (double and 2x2 blocks), complex values and the GPU/VexCL params structs are not covered; MPI structs are checked at the params level only '
-                '(run-time vs compile-time MPI solves belong to C12); pointer parameters are import-only'))
+    level_note=('back ends other than builtin (double and 2x2 blocks), complex values and the GPU/VexCL params structs are not covered; MPI structs are checked at the params level '
+                'and through the relaxation / amg / solver wrappers on <= 5 ranks; the two names a base params class whitelists for its derived class (ilu0: k, plain_aggregates: block_size) are recorded, not judged; pointer parameters are import-only'))
